@@ -646,6 +646,14 @@ func installLibStubs(e *Engine) {
 	S["verif:verifDiskEvents"] = func(e *Engine, st *State, c *callInfo, a []Value) Value {
 		return e.ghostTerm(st, "disk.events", func() *Term { return BVu(0, 64) })
 	}
+	S["verif:verifWatchLocks"] = func(e *Engine, st *State, c *callInfo, a []Value) Value {
+		e.watchLocks = argTerm(a[0]).IsTrue()
+		return nil
+	}
+	S["verif:verifOnLock"] = func(e *Engine, st *State, c *callInfo, a []Value) Value {
+		st.ghost["user:onlock"] = a[0]
+		return nil
+	}
 	S["verif:verifFileAbsent"] = func(e *Engine, st *State, c *callInfo, a []Value) Value {
 		path := mustConcreteStr(a[0], "verifFileAbsent path")
 		e.putFile(st, path, fileState{exists: False(), ln: BVu(0, 64), elems: &ArrayV{T: types.Typ[types.Uint8]}})
@@ -724,4 +732,55 @@ func (e *Engine) eofErr(st *State) *IfaceV {
 	return st.heap[id].(*IfaceV)
 }
 
-func (e *Engine) checkGuarded(st *State, l *Loc, site string) {}
+// guardedFields: fields of the server structs that the code base's convention
+// ("every field not prefixed static is protected by mu") puts under a mutex.
+var guardedFields = map[string]map[string]bool{
+	"GCAServer": {"equipment": true, "equipmentShortID": true, "equipmentBans": true, "equipmentImpactRate": true,
+		"equipmentMigrations": true, "equipmentReports": true, "equipmentReportsOffset": true, "equipmentStatsHistory": true,
+		"equipmentHistoryOffset": true, "recentEquipmentAuths": true, "recentReports": true, "gcaPubkey": true, "gcaPubkeyAvailable": true},
+	"AuthorizedServers": {"servers": true},
+}
+
+// checkGuarded: an access to a guarded field must happen while the struct's mu is held.
+func (e *Engine) checkGuarded(st *State, l *Loc, site string) {
+	t, ok := e.objTypes[l.Obj]
+	if !ok || len(l.Path) == 0 {
+		return
+	}
+	root, ok := st.heap[l.Obj]
+	if !ok {
+		return
+	}
+	cur := t
+	var v Value = root
+	for depth := 0; depth < len(l.Path) && depth < 2; depth++ {
+		stp := l.Path[depth]
+		if stp.Field < 0 {
+			return
+		}
+		named, isNamed := cur.(*types.Named)
+		stt, isStruct := cur.Underlying().(*types.Struct)
+		if !isStruct {
+			return
+		}
+		sv, isSV := v.(*StructV)
+		if !isSV {
+			return
+		}
+		fname := stt.Field(stp.Field).Name()
+		if isNamed {
+			if g := guardedFields[named.Obj().Name()]; g != nil && g[fname] {
+				// find mu
+				for i := 0; i < stt.NumFields(); i++ {
+					if stt.Field(i).Name() == "mu" {
+						held := sv.F[i].(*StructV).F[0].(*Term)
+						e.oblige(st, "lock", "guarded-field-"+fname+"-accessed-under-mu@"+site, site, Eq(held, BVu(1, 32)))
+						return
+					}
+				}
+			}
+		}
+		cur = stt.Field(stp.Field).Type()
+		v = sv.F[stp.Field]
+	}
+}
